@@ -367,6 +367,7 @@ def c11_units(tier, seed):
             us.append(dict(id=f"C11b[sect={s},base={b}]", harness="calendar.VH_C11_PillarPure", params={"Y": b, "SECT": s}))
     ys = sorted(set(year_set(tier, seed)) | set(range(1840, 2160))) if q else range(1, 9999)
     us += [dict(id=f"C11c[Y={Y}]", harness="calendar.VH_C11_YearObject", params={"Y": Y}) for Y in ys]
+    us += per_year("calendar.VH_C11_TimeObject", "C11d", year_set(tier, seed, budget_quick=8) if q else year_set(tier, seed))
     return us
 
 
@@ -383,7 +384,7 @@ def c18_units(tier, seed):
 _field = "field-level: every state of the lunar date satisfying the class invariant InvLunar (pillar fields symbolic: month -12..12 except 0, day 1..30, hour, minute, the 60-cycle indices of year/month/day pillars with their by-Lichun / exact variants within one step, weekday), term table and civil date of a concrete base day"
 PROPS["C08"] = dict(units=c08_units, bounds_text=_field + "; real objects: every second of each listed year for the accessors that build other dates, the fortune chain and the packed-table lists (pillars concretised per month); containers of each listed year",
                     outside="Solar.GetJulianDay at second resolution (not encodable; 3-hour marks in C04); years not listed for the real-object part", unit_timeout_ms={"quick": 900000, "thorough": 2400000})
-PROPS["C11"] = dict(units=c11_units, bounds_text=_field + ", both sects; pillar purity over pairs of such states", outside="list-valued hour yi/ji routes; reverse lookup default sect (C10)", unit_timeout_ms={"quick": 900000, "thorough": 2400000})
+PROPS["C11"] = dict(units=c11_units, bounds_text=_field + ", both sects; pillar purity over pairs of such states; hour object vs own hour accessors on real objects for every second of each listed year", outside="list-valued hour yi/ji routes; reverse lookup default sect (C10)", unit_timeout_ms={"quick": 900000, "thorough": 2400000})
 PROPS["C18"] = dict(units=c18_units, bounds_text=_field + "; purity over pairs of such states; table laws evaluated concretely", outside="list-valued yi/ji/jishen/xiongsha purity (structural: the accessors pass exactly the pillar strings to table functions)")
 
 
@@ -431,7 +432,7 @@ def c09_units(tier, seed):
     return us
 
 
-PROPS["C09"] = dict(units=c09_units, bounds_text="histories: every sequence of 3 calls from a 7-entry menu (two years' tables, conversions, recovered panics on invalid input and on an absurd year) before the observed call, for each menu entry as observed call; concurrency: one critical-section step of NewLunarYear under arbitrary interference at every lock acquisition (cache empty / other year / same year), lock released on every path incl. panics; every read-only accessor free of unprotected writes to shared memory (lockset argument: no two concurrent readers can race)",
+PROPS["C09"] = dict(units=c09_units, bounds_text="histories: every sequence of 3 calls from a 7-entry menu (two years' tables, conversions, recovered panics on invalid input and on an absurd year) before the observed call, for each menu entry as observed call; concurrency: one critical-section step of NewLunarYear under arbitrary interference at every lock acquisition (cache empty / other year / same year), lock released on every path incl. panics; every zero-argument accessor AND every method taking only int/bool options (sect, gender, step count; called with 1 and 2 / true and false; Set* mutators excluded) of 19 object types free of unprotected writes to shared memory (lockset argument: no two concurrent readers can race)",
                     outside="goroutine scheduling below critical-section granularity is covered only through the lockset argument (all accesses to the cache are inside the lock; readers write nothing); weak memory; HolidayUtil.Fix (a documented mutator); more than 3-call histories",
                     assumptions=["sync.Mutex is modelled as a held flag; Lock on a held mutex in a sequential history is reported as the library being blocked", "environment model at Lock: protected state is re-chosen within the cache invariant (nil, or a table that equals the sequentially computed table of its year)"])
 
